@@ -13,6 +13,7 @@ gvars == <<vars, calls, replies, rets>>
 
 \* a registry that answers what was asked (the stored content may still be corrupt)
 HonestReplies == {r \in AllReplies : r.src = "served" /\ r.start = readCur /\ r.cl \in {"right", "absent"}
+                                  /\ r.st = "std"
                                   /\ r.cr = "honest"}
 \* a registry that keeps its connections up but lies
 NoDropReplies == {r \in AllReplies : r.cut = NoCut}
@@ -20,11 +21,12 @@ NoDropReplies == {r \in AllReplies : r.cut = NoCut}
 \* a registry that is honest about offsets and lengths but may serve either content on any request
 \* (first pass good, pass after a rewind corrupted, and the other way round)
 SwitchReplies == {r \in AllReplies : r.start = readCur /\ r.cl \in {"right", "absent"} /\ r.cr = "honest"
+                                   /\ r.st = "std"
                                    /\ r.cut = NoCut}
 
 \* whole-blob replies only: the registry (a confused mirror or cache) serves the stored or the intended
 \* blob completely, with every announcement of its digest (the descriptor-shape x digest-header family)
-HdrReplies == {r \in AllReplies : r.start = readCur /\ r.cut = NoCut /\ r.cr = "honest"
+HdrReplies == {r \in AllReplies : r.start = readCur /\ r.cut = NoCut /\ r.cr = "honest" /\ r.st = "std"
                                 /\ r.cl \in (IF scn.size = 0 THEN {"right", "absent"} ELSE {"absent"})}
 
 RecRet == rets' = IF ret'.seq # ret.seq
@@ -35,10 +37,11 @@ ReplyRec(kind, r) ==
       body == IF r.cut = NoCut THEN full ELSE Take(full, r.cut)
   IN [kind |-> kind, src |-> r.src, start |-> r.start, cl |-> r.cl, cr |-> r.cr, dh |-> r.dh,
       body |-> body, total |-> Len(SrcOf(r.src)), full |-> Len(full),
-      end |-> IF r.cut = NoCut THEN "eof" ELSE "drop",
+      end |-> IF r.cut = NoCut THEN "eof" ELSE IF r.dk = "reset" THEN "reset" ELSE "drop",
       range |-> IF RangeReq THEN 1 ELSE 0, off |-> readCur, max |-> readMax,
-      ext |-> IF extused THEN 1 ELSE 0]
-NoReply == [src |-> "served", start |-> 0, cl |-> "absent", cr |-> "absent", cut |-> 0, dh |-> "absent"]
+      ext |-> extused, st |-> r.st]
+NoReply == [src |-> "served", start |-> 0, cl |-> "absent", cr |-> "absent", cut |-> 0, dh |-> "absent",
+            st |-> "std", dk |-> "ueof"]
 
 GInit == Init /\ calls = <<>> /\ replies = <<>> /\ rets = <<>>
 GNext ==
